@@ -665,9 +665,11 @@ class RiscvParser(Parser):
                 )
             else:
                 # in line label
+                # (an expanded pseudo instruction has several entries with the same line number,
+                # so the label is removed once it has been mapped to the first of them)
                 if line_number in self.in_line_labels:
                     self._add_label_mapping(
-                        self.in_line_labels[line_number],
+                        self.in_line_labels.pop(line_number),
                         instruction_address,
                         line_number,
                         line,
